@@ -15,7 +15,7 @@
 (* children reaped, events, byte runs, descriptor and allocation counts).  *)
 (* `hist` is hidden from the fingerprint with VIEW in the MC_* models.     *)
 (***************************************************************************)
-EXTENDS Integers, Sequences, FiniteSets, TLC, Json
+EXTENDS Integers, Sequences, FiniteSets, TLC, TLCExt, Json
 
 CONSTANTS Handles,      \* e.g. {1} or {1, 2}
           MaxTime,      \* bound on the virtual clock
@@ -23,7 +23,9 @@ CONSTANTS Handles,      \* e.g. {1} or {1, 2}
           PipeCap,      \* capacity of every pipe, in bytes
           MaxOut,       \* bound on the number of bytes a child writes per stream
           ExitCodes,    \* exit codes a child may choose when it ends by itself
-          TermDelay     \* a "dies later" child dies this long after its first SIGTERM
+          TermDelay,    \* a "dies later" child dies this long after its first SIGTERM
+          ExportStride, \* quick tier: only every ExportStride-th call-completing transition is exported for replay,
+          ExportOffset  \* chosen by the fingerprint of the behaviour (deterministic for a fixed -fp); 1 / 0 = all
 
 VARIABLES life,   \* [Handles -> {"none","ns","run","exited"}]  none = no object (NULL handle)
           stv,    \* [Handles -> Int]   status stored by the reaping wait (-1 = none)
@@ -399,6 +401,10 @@ DrainSummary(f) ==
      ELSE IF failed(2) THEN <<<<-1, -1, -1>>, rec(2)>>
      ELSE <<rec(1), rec(2)>>
 
+\* whether the descriptor / allocation count is predicted for a failed start too (MC_Destroy overrides this with FALSE:
+\* C15 speaks about what is left after destroy, so there a leak of a failed start must show at destroy's return)
+StrictFailedStart == TRUE
+
 RetRec(s) ==
   LET f == s.fr
       base == [e |-> "ret", t |-> now, sig |-> f.sigs, reap |-> f.reaped, mon |-> <<>>,
@@ -406,6 +412,7 @@ RetRec(s) ==
   IN CASE f.fn = "poll" /\ f.r = 0 -> base @@ [rev |-> [any |-> SetToSeq(f.x)]]
        [] f.fn = "read" /\ f.r > 0 -> base @@ [r |-> f.r, runs |-> f.x, bad |-> 0]
        [] f.fn \in {"drain", "run"} /\ DOMAIN f.x # {} -> base @@ [r |-> f.r, dsum |-> DrainSummary(f), bad |-> 0]
+       [] f.fn = "start" /\ f.r < 0 /\ ~StrictFailedStart -> [e |-> "ret", t |-> now, mon |-> <<>>, r |-> f.r]
        [] f.alt # {} -> base @@ [r |-> [any |-> SetToSeq({f.r} \cup f.alt)]]
        [] OTHER -> base @@ [r |-> f.r]
 
@@ -627,6 +634,11 @@ ChildRead(h, n) ==
   /\ cnt' = [cnt EXCEPT ![h].cr = @ + n]
   /\ hist' = Append(hist, EnvRec("cread", h, [n |-> n, got |-> n]))
   /\ UNCHANGED <<life, stv, opt, pend, ch, now, fr, ncalls>>
+
+\* export the behaviour that ends with this call-completing transition (ACTION_CONSTRAINT of the MC_* models)
+ExportRet ==
+  (Len(hist') > Len(hist) /\ hist'[Len(hist')].e = "ret" /\ (ExportStride = 1 \/ TLCFP(hist') % ExportStride = ExportOffset))
+    => PrintT(<<"BEH", ToJson(hist')>>)
 
 (* ======================= properties checked on the model ======================= *)
 LastRet == IF hist # <<>> /\ hist[Len(hist)].e = "ret" THEN hist[Len(hist)] ELSE [e |-> "none"]
